@@ -38,7 +38,7 @@ type augParam struct {
 	pattern string   // regexp for the rendering
 }
 
-var goType = map[string]string{"ptr": "*T", "map": "map[string]int", "chan": "chan int", "func": "func()", "slice": "[]int", "iface": "error"}
+var goType = map[string]string{"ptr": "*T", "map": "map[string]int", "chan": "chan int", "chanrecv": "<-chan int", "chansend": "chan<- int", "func": "func()", "slice": "[]int", "iface": "error"}
 
 func sizedInt(kind string) (bits int, signed bool) {
 	switch kind {
@@ -98,11 +98,13 @@ func mkAugParam(kind string, rng *rand.Rand, n int) augParam {
 		p.want = fmt.Sprintf("[]int(%s len=%d cap=%d)", hex(ptr), l, c)
 		p.pattern = fmt.Sprintf(`^\[\]int\((0x[0-9a-f]+|#\d+) len=%d cap=%d\)$`, l, c)
 		p.literal = "make([]int, 2, 4)"
-	case "ptr", "map", "chan", "func":
+	case "ptr", "map", "chan", "chanrecv", "chansend", "func":
 		p.words = []uint64{ptr}
-		p.want = fmt.Sprintf("%s(%s)", map[string]string{"ptr": "*T", "map": "map[string]int", "chan": "chan int", "func": "func"}[kind], hex(ptr))
-		p.pattern = `^` + regexp.QuoteMeta(map[string]string{"ptr": "*T", "map": "map[string]int", "chan": "chan int", "func": "func"}[kind]) + `\((0x[0-9a-f]+|#\d+)\)$`
-		p.literal = map[string]string{"ptr": "&T{}", "map": "map[string]int{}", "chan": "make(chan int)", "func": "func() {}"}[kind]
+		// a directional channel is rendered like any channel: the direction is not part of the value
+		shown := map[string]string{"ptr": "*T", "map": "map[string]int", "chan": "chan int", "chanrecv": "chan int", "chansend": "chan int", "func": "func"}[kind]
+		p.want = fmt.Sprintf("%s(%s)", shown, hex(ptr))
+		p.pattern = `^(<-)?` + regexp.QuoteMeta(shown) + `\((0x[0-9a-f]+|#\d+)\)$|^chan<- int\((0x[0-9a-f]+|#\d+)\)$`
+		p.literal = map[string]string{"ptr": "&T{}", "map": "map[string]int{}", "chan": "make(chan int)", "chanrecv": "(<-chan int)(make(chan int))", "chansend": "(chan<- int)(make(chan int))", "func": "func() {}"}[kind]
 	case "iface":
 		p.words = []uint64{0x4b5a20, ptr}
 		p.want = fmt.Sprintf("error{%s, %s}", hex(0x4b5a20), hex(ptr))
@@ -179,7 +181,13 @@ func printWords(ps []augParam, recv bool) string {
 }
 
 // genSource writes main.go; returns the line of the panic statement inside the callee.
-func genSource(dir string, ps []augParam, recv bool, extraTop int) (string, int) {
+func genSource(dir string, ps []augParam, recv bool, extraTop int, gopts ...string) (string, int) {
+	recvDecl := "(t *T) "
+	for _, o := range gopts {
+		if o == "unnamed-recv" {
+			recvDecl = "(*T) " // the receiver is passed (and printed) whether or not it has a name
+		}
+	}
 	var sb strings.Builder
 	sb.WriteString(strings.Repeat("\n", extraTop))
 	sb.WriteString("package main\n\nimport \"errors\"\n\nvar _ = errors.New\n\ntype T struct{ x int }\n\n")
@@ -190,7 +198,7 @@ func genSource(dir string, ps []augParam, recv bool, extraTop int) (string, int)
 	}
 	line := strings.Count(sb.String(), "\n") + 1
 	if recv {
-		fmt.Fprintf(&sb, "//go:noinline\nfunc (t *T) callee(%s) {\n\tpanic(\"boom\")\n}\n\n", strings.Join(sig, ", "))
+		fmt.Fprintf(&sb, "//go:noinline\nfunc %scallee(%s) {\n\tpanic(\"boom\")\n}\n\n", recvDecl, strings.Join(sig, ", "))
 	} else {
 		fmt.Fprintf(&sb, "//go:noinline\nfunc callee(%s) {\n\tpanic(\"boom\")\n}\n\n", strings.Join(sig, ", "))
 	}
@@ -411,6 +419,15 @@ func auxAug(res *Result, dir string, idx int, cs interface{}) {
 		res.infra("aux case %d: the generated source was not used", idx)
 		return
 	}
+	// naming off stays off, whatever else is on
+	if unnamed, _ := scanWith(dump, &stack.Opts{LocalGOROOT: runtime.GOROOT(), GuessPaths: true, AnalyzeSources: true}); unnamed != nil {
+		for _, l := range labels(unnamed) {
+			if l.Name != "" {
+				res.violation(Finding{Property: "C15", Aspect: "off-augmented", What: fmt.Sprintf("augment case %d: naming is off (source analysis on), yet the value 0x%x carries the pseudo-name %s", idx, l.Value, l.Name), Case: cs, Input: []byte(dump)})
+				break
+			}
+		}
+	}
 	lp, la := labels(plain), labels(aug)
 	if !reflect.DeepEqual(lp, la) {
 		res.violation(Finding{Property: "C15", Aspect: "augment-labelling", What: fmt.Sprintf("augment case %d: with source analysis on, the names / classification of the arguments differ from those without it", idx), Case: cs, Input: []byte(dump), Expected: lp, Observed: la})
@@ -486,9 +503,13 @@ func checkAugCase(res *Result, ac *augCase, dir string, idx int, seed int64, rea
 	}
 	// make a scalar value recur, so that pseudo-names would apply to it if they were (wrongly) used for scalars
 	recv := rng.Intn(3) == 0
+	var gopts []string
+	if recv && rng.Intn(2) == 0 {
+		gopts = append(gopts, "unnamed-recv")
+	}
 	_ = os.MkdirAll(dir, 0o755)
 	_ = os.WriteFile(filepath.Join(dir, "go.mod"), []byte("module example.com/aug\n\ngo 1.20\n"), 0o644)
-	_, pl := genSource(dir, ps, recv, 0)
+	_, pl := genSource(dir, ps, recv, 0, gopts...)
 	fn := "main.callee"
 	if recv {
 		fn = "main.(*T).callee"
@@ -605,7 +626,7 @@ func checkAugCase(res *Result, ac *augCase, dir string, idx int, seed int64, rea
 			_ = os.WriteFile(filepath.Join(dir, "main.go"), []byte(sb.String()), 0o644)
 			dump5 := fmt.Sprintf("goroutine 1 [running]:\n%s(%s)\n\t%s:122 +0x1d\n\ngoroutine 2 [running]:\n%s(%s)\n\t%s:122 +0x1d\n", fn, words, file, fn, printWords(ps2, recv), file)
 			cutAug(res, dump5, idx, cs)
-			genSource(dir, ps, recv, 0)
+			genSource(dir, ps, recv, 0, gopts...)
 			// every frame of the uncut dump is found on disk
 			dump4 := fmt.Sprintf("goroutine 1 [running]:\n%s(%s)\n\t%s:%d +0x1d\n\ngoroutine 2 [running]:\n%s(%s)\n\t%s:%d +0x1d\nmain.main()\n\t%s:%d +0x2a\n", fn, words, file, pl, fn, printWords(ps2, recv), file, pl, file, pl+5)
 			cutAug(res, dump4, idx, cs)
@@ -614,14 +635,14 @@ func checkAugCase(res *Result, ac *augCase, dir string, idx int, seed int64, rea
 	}
 	if !immutOnly && !cutOnly {
 		auxAug(res, dir, idx, cs)
-		genSource(dir, ps, recv, 0)
+		genSource(dir, ps, recv, 0, gopts...)
 	}
 	if immutOnly || cutOnly || auxOnly {
 		return
 	}
 	// mismatching sources: never a crash, a changed value or a changed frame
 	base, _ := scanWith(dump, &stack.Opts{LocalGOROOT: runtime.GOROOT(), GuessPaths: true})
-	for m := 0; m < 8; m++ {
+	for m := 0; m < 11; m++ {
 		switch m {
 		case 0:
 			_ = os.Remove(filepath.Join(dir, "main.go"))
@@ -640,10 +661,24 @@ func checkAugCase(res *Result, ac *augCase, dir string, idx int, seed int64, rea
 			for i := range ps {
 				other = append(other, mkAugParam([]string{"string", "slice", "iface", "int8", "float64", "map"}[rng.Intn(6)], rng, i))
 			}
-			genSource(dir, other, recv, 0) // other kinds
+			genSource(dir, other, recv, 0, gopts...) // other kinds
+		case 8:
+			// unparsable, but only from the frame's function on: a complete function of another shape stands in
+			// front of it (on the line of the type declaration, so that no line moves)
+			src, _ := genSource(dir, ps, recv, 0, gopts...)
+			src = strings.Replace(src, "type T struct{ x int }\n", "type T struct{ x int }; func decoy(s string, ok bool, f float64) {}\n", 1)
+			src = strings.Replace(src, "\nfunc ", "\nfnuc ", 1)
+			_ = os.WriteFile(filepath.Join(dir, "main.go"), []byte(src), 0o644)
+		case 9, 10:
+			// stale sources of another arity: scalars first, then interface types
+			other := []augParam{mkAugParam("int", rng, 0), mkAugParam("iface", rng, 1)}
+			if m == 10 {
+				other = []augParam{mkAugParam("int", rng, 0), mkAugParam("int", rng, 1), mkAugParam("iface", rng, 2), mkAugParam("iface", rng, 3)}
+			}
+			genSource(dir, other, recv, 0, gopts...)
 		case 6, 7:
 			// a method with two receivers / an empty receiver list: not Go, but go/parser accepts it
-			src, _ := genSource(dir, ps, false, 0)
+			src, _ := genSource(dir, ps, false, 0, gopts...)
 			recvTxt := "(t *T, u *T) "
 			if m == 7 {
 				recvTxt = "() "
@@ -652,7 +687,7 @@ func checkAugCase(res *Result, ac *augCase, dir string, idx int, seed int64, rea
 			_ = os.WriteFile(filepath.Join(dir, "main.go"), []byte(src), 0o644)
 		case 5:
 			// declarations without bodies (assembly / linkname stubs) above the callee
-			src, _ := genSource(dir, ps, recv, 0)
+			src, _ := genSource(dir, ps, recv, 0, gopts...)
 			src = strings.Replace(src, "type T struct{ x int }\n", "type T struct{ x int }\n\nfunc nobody() int64\n\nfunc nobody2(x int)\n", 1)
 			_ = os.WriteFile(filepath.Join(dir, "main.go"), []byte(src), 0o644)
 		}
@@ -666,6 +701,16 @@ func checkAugCase(res *Result, ac *augCase, dir string, idx int, seed int64, rea
 			res.violation(Finding{Property: "C19", Aspect: "mismatch", What: fmt.Sprintf("mismatching sources (variant %d) changed the goroutines", m), Case: cs})
 			continue
 		}
+		if m == 0 || m == 1 || m == 8 {
+			// a source file that is missing or does not parse cannot be the source of any typed rendering
+			if c := calleeCall(s); c != nil && len(c.Args.Processed) != 0 {
+				what := map[int]string{0: "was removed", 1: "does not parse", 8: "does not parse from the frame's function on"}[m]
+				res.violation(Finding{Property: "C19", Aspect: "mismatch-augmented", What: fmt.Sprintf("the source file %s, yet the frame's arguments are augmented: %v", what, c.Args.Processed), Case: cs, Input: []byte(dump), Observed: c.Args.Processed})
+				if m == 0 {
+					res.violation(Finding{Property: "C06", Aspect: "earlier-calls", What: fmt.Sprintf("the source file was removed, yet the frame's arguments are augmented as in the earlier scans of this process: %v", c.Args.Processed), Case: cs, Input: []byte(dump)})
+				}
+			}
+		}
 		for gi := range s.Goroutines {
 			for ci := range s.Goroutines[gi].Stack.Calls {
 				a, b := &s.Goroutines[gi].Stack.Calls[ci], &base.Goroutines[gi].Stack.Calls[ci]
@@ -677,7 +722,7 @@ func checkAugCase(res *Result, ac *augCase, dir string, idx int, seed int64, rea
 	}
 	// line numbers that no file has - beyond the last line, 19 and 20 digits, beyond 2^63: the frame
 	// keeps its raw values, nothing crashes
-	genSource(dir, ps, recv, 0)
+	genSource(dir, ps, recv, 0, gopts...)
 	for _, ln := range []string{"99999", "9223372036854775807", "9223372036854775808", "9999999999999999999", "18446744073709551615", "18446744073709551616"} {
 		dh := fmt.Sprintf("goroutine 1 [running]:\n%s(%s)\n\t%s:%s +0x1d\n", fn, words, file, ln)
 		s, pan := scanWith(dh, &stack.Opts{LocalGOROOT: runtime.GOROOT(), GuessPaths: true, AnalyzeSources: true})
@@ -693,15 +738,15 @@ func checkAugCase(res *Result, ac *augCase, dir string, idx int, seed int64, rea
 		}
 	}
 	if realRun {
-		realAugRun(res, ps, recv, dir, idx, cs)
+		realAugRun(res, ps, recv, dir, idx, cs, gopts)
 	}
 }
 
 var reWordLine = regexp.MustCompile(`(?m)^main\.(?:\(\*T\)\.)?callee\((.*)\)$`)
 
 // realAugRun compiles and crashes the generated program and feeds its real traceback back.
-func realAugRun(res *Result, ps []augParam, recv bool, dir string, idx int, cs interface{}) {
-	genSource(dir, ps, recv, 0)
+func realAugRun(res *Result, ps []augParam, recv bool, dir string, idx int, cs interface{}, gopts []string) {
+	genSource(dir, ps, recv, 0, gopts...)
 	env := append(os.Environ(), "GOFLAGS=-mod=mod", "GOPROXY=off", "GOSUMDB=off", "GOTOOLCHAIN=local", "GOTRACEBACK=all", "GO111MODULE=on")
 	bin := filepath.Join(dir, "prog")
 	cmd := exec.Command("go", "build", "-gcflags", "-N -l", "-o", bin, ".")
